@@ -158,6 +158,8 @@ struct RecInner
     extra: Map<String, Value>,
     exhaustive: Option<bool>,
     parts: Vec<Value>,
+    /// (seconds, part, abridged case) of the slowest cases
+    slowest: Vec<(f64, String, String)>,
 }
 
 #[derive(Clone)]
@@ -310,6 +312,21 @@ impl Recorder
         self.inner.lock().unwrap().violations.iter().any(|v| v.0 == part && v.1 == sig)
     }
 
+    pub fn note_slow(&self, secs: f64, part: &str, case: impl FnOnce() -> String)
+    {
+        if secs < 2.0
+        {
+            return;
+        }
+        let mut g = self.inner.lock().unwrap();
+        if g.slowest.len() < 5 || g.slowest.iter().any(|s| s.0 < secs)
+        {
+            g.slowest.push((secs, part.to_string(), case()));
+            g.slowest.sort_by(|a, b| b.0.partial_cmp(&a.0).unwrap());
+            g.slowest.truncate(5);
+        }
+    }
+
     pub fn cases(&self) -> u64
     {
         self.inner.lock().unwrap().cases
@@ -378,6 +395,13 @@ impl Recorder
         if !g.parts.is_empty()
         {
             coverage.insert("parts".into(), Value::Array(g.parts.clone()));
+        }
+        if !g.slowest.is_empty()
+        {
+            coverage.insert(
+                "slowest_cases".into(),
+                Value::Array(g.slowest.iter().map(|(t, p, c)| json!({"seconds": t, "part": p, "case": c})).collect()),
+            );
         }
         for (k, v) in &g.extra
         {
@@ -597,7 +621,30 @@ pub fn pbt_opts<C>(
                     {
                         return Ok(());
                     }
-                    let o = match run_checked(check, &case)
+                    let t_case = Instant::now();
+                    let checked = run_checked(check, &case);
+                    rec.note_slow(t_case.elapsed().as_secs_f64(), part, || {
+                        let j = serde_json::to_string(&case).unwrap_or_default();
+                        if j.len() <= 1400
+                        {
+                            j
+                        }
+                        else
+                        {
+                            let mut a = 300;
+                            while !j.is_char_boundary(a)
+                            {
+                                a -= 1;
+                            }
+                            let mut b = j.len() - 1000;
+                            while !j.is_char_boundary(b)
+                            {
+                                b += 1;
+                            }
+                            format!("{} … {}", &j[..a], &j[b..])
+                        }
+                    });
+                    let o = match checked
                     {
                         Ok(o) => o,
                         Err(m) =>
